@@ -388,7 +388,16 @@ def _is_sharing_guard(ctx, fi) -> bool:
                 if allowed(name.split(".")[-1]):
                     tested = True
     kinds = set()
-    for n in ast.walk(node):
+
+    def positive_tests(t):
+        """isinstance calls that select a branch positively (not under `not`)"""
+        if isinstance(t, ast.BoolOp):
+            for v in t.values:
+                yield from positive_tests(v)
+        elif isinstance(t, ast.Call):
+            yield t
+    branch_tests = [c for n in ast.walk(node) if isinstance(n, ast.If) for c in positive_tests(n.test)]
+    for n in branch_tests:
         if isinstance(n, ast.Call) and isinstance(n.func, ast.Name) and n.func.id == "isinstance" and len(n.args) == 2:
             for x in ast.walk(n.args[1]):
                 if isinstance(x, ast.Name):
